@@ -112,6 +112,11 @@ var c06 = Register("C06", "C06.text", func(a c06Args) *Violation {
 		{"%v", pv, wg},
 		{"Format(g,-1)", d128.Format(d, 'g', -1), wg},
 		{"Append(g,-1)", string(d128.Append(nil, d, 'g', -1)), wg},
+		{"Decimal.Append(nil, v)", string(d.Append(nil, "v")), wg},
+		{"Decimal.Append(prefix, v)", strings.TrimPrefix(string(d.Append([]byte("p="), "v")), "p="), wg},
+		{"Sprint", fmt.Sprint(d), wg},
+		{"Format(G,-1)", strings.ToLower(d128.Format(d, 'G', -1)), wg},
+		{"Format(E,-1)", strings.ToLower(d128.Format(d, 'E', -1)), we},
 		{"Format(e,-1)", d128.Format(d, 'e', -1), we},
 		{"Append(e,-1)", string(d128.Append(nil, d, 'e', -1)), we},
 	}
